@@ -199,7 +199,21 @@ def search(ctx):
             twin = ("R" if x[0] == "L" else "L") + x[1:] if "Literal" not in x else x
             seqs.append("C16.seq\td~0~0:1:%s|c~0~%s~|d~0~1:1:%s|c~0~%s~|c~0~%s~" % (a, x, b, x, twin))
     step = max(1, len(seqs) // 3000)
-    return suspicious + seqs[::step] + rest[:6000]
+    # a symbol of the same name that is not a function between two overloads (and before / after them): every
+    # overload above the call has to be a candidate
+    syms = []
+    n = 0
+    for a, b in itertools.permutations(params, 2):
+        for x in args:
+            n += 1
+            k = "setb"[n % 4]
+            sc = n % 2
+            place = n % 3
+            d = ["d~%d~0:1:%s" % (sc, a), "d~%d~1:1:%s" % (sc, b)]
+            d.insert(place, "o~%d~%s" % (sc, k))
+            syms.append("C16.seq\t%s|c~%d~%s~" % ("|".join(d), sc, x))
+    step2 = max(1, len(syms) // 3000)
+    return suspicious + syms[::step2] + seqs[::step] + rest[:6000]
 
 
 SPEC = {
@@ -233,6 +247,9 @@ SPEC = {
         # calls interleaved with declarations: the verdict at a site is the resolution on the candidates visible there
         "site_verdict_is_resolution_of_visible", "visible_prefix_independent", "nothing_visible_is_unknown_name",
         "registry_is_transparent", "template_body_site_resolved_at_first_instantiation", "observations_are_at_places",
+        # symbols of the same name that are not functions: the gathering loop of find_identifier_in_scope
+        "gathering_ignores_non_function_symbols", "non_function_symbol_changes_no_candidate",
+        "same_name_symbols_take_no_candidate_away", "inner_type_hides_outer_overloads",
         # the source text of the transcribed routines, re-extracted each run
         "resolve_shape_as_modelled", "resolution_reads_no_call_history", "resolve_source_as_transcribed"]],
     "harness": "c16",
@@ -259,7 +276,15 @@ SPEC = {
                   "function of the visible set and the argument types only (visible_prefix_independent: any two sites that "
                   "see the same candidates in any order agree), and the one piece of state the code carries from call to "
                   "call, the function registry's table of template instantiations, is threaded through a second model and "
-                  "proved to change no verdict (registry_is_transparent). The rank tables and the text of the transcribed routines are re-extracted from the "
+                  "proved to change no verdict (registry_is_transparent). Symbols that are not functions but carry the name of the "
+                  "overload set (struct, enum, typedef, cbuffer, namespace: legal next to functions since 31dddea): the walk's "
+                  "state is the symbol vector of each scope, the gathering loop of find_identifier_in_scope is transcribed "
+                  "(gatherLoop / findInScope / lookupChain) and proved to hand over exactly the functions of the vector, in "
+                  "order, whatever else the vector holds and wherever it stands (gathering_ignores_non_function_symbols, "
+                  "non_function_symbol_changes_no_candidate), so the site theorem holds with such declarations at every "
+                  "place of the unit (same_name_symbols_take_no_candidate_away); a scope that declares a type of the name "
+                  "and no function hides the outer overloads, a cbuffer or namespace of the name does not "
+                  "(inner_type_hides_outer_overloads). The rank tables and the text of the transcribed routines are re-extracted from the "
                   "source each run (a reshaped loop stops the theorems from checking), and so are every path through "
                   "`context` in the resolution routines and the field list of the typer's Context "
                   "(resolution_reads_no_call_history: a memo of resolved calls is a new field and a new path); the model is compared with the real "
@@ -294,6 +319,13 @@ SPEC = {
             "that holds the declarations, the accepted earlier sites and this one. Oracle per site: the C16.resolve oracle on "
             "the candidates visible at the site (declared above it in the scope the lookup reaches; all methods of the "
             "struct), and equality with the verdict of a separate program that declares exactly that set and calls once. "
+            "Items `o~<scope>~<s|e|t|b|n>` declare a struct / enum / typedef / cbuffer / namespace with the NAME OF THE OVERLOAD "
+            "SET in the root scope or in N, at every place of the declaration sequence (before all overloads, between any two, "
+            "after all; also behind the compiler's overloads of an intrinsic); the oracle's visible set is every function "
+            "of the name declared above the call in the scope the lookup reaches, whatever stands in between; where the "
+            "innermost scope that knows the name declares a type of it and no function, the call has to be taken for a "
+            "constructor (`type`: Constructor node / ConstructorWrongArgumentCount / WrongTypeInConstructor / "
+            "ExpectedExpressionReceivedType). "
             "C16.conv requests = one row of the exhaustive find/get_rank/"
             "get_target_type table over 8 scalar kinds x {scalar, vec1-4, 2 matrices} + enums + structs x "
             "{none,const,volatile} x {lvalue,rvalue}. non-trivial = at least two candidates / a table row.",
@@ -301,7 +333,7 @@ SPEC = {
         "Lean 4.33 kernel; axioms propext / Classical.choice / Quot.sound only (audited by #print axioms)",
         "tools/gens/c16.py — RankTable (ScalarType, NumericDimension, InputModifier->ValueType, NumericRank + order + "
         "compare, VectorRank + worst_to_best, the (source_scalar,dest_scalar) rank match, get_rank's DimensionCast match) and "
-        "ResolveShape (35 regular-expression facts about find_function_type / find_overload_casts / apply_templates / "
+        "ResolveShape (37 regular-expression facts about find_function_type / find_overload_casts / apply_templates / "
         "build_function_template_signature / build_intrinsic_template / write_function / write_method / "
         "ImplicitConversion::apply / Expression::get_type / find_identifier / find_identifier_in_scope / "
         "insert_function_in_scope / get_struct_member_expression / parse_function / parse_struct_internal / "
@@ -309,7 +341,10 @@ SPEC = {
         "find_function_type, every `context...` path in the four resolution routines, every `self...` path in the two "
         "signature-instantiation routines, the fields of struct Context, and the comment- and "
         "whitespace-free text of find_function_type, find_overload_casts, try_infer_template_type, "
-        "normalize_template_type, apply_template_type_substitution, check_output_arguments, check_mutable_place) — re-run "
+        "normalize_template_type, apply_template_type_substitution, check_output_arguments, check_mutable_place, "
+        "find_identifier_in_scope; of the latter's gathering loop: no break / continue / guarded or catch-all arm, a function "
+        "is pushed, Type / ConstantBuffer / Namespace / EnumScope have empty arms, the overloads are handed over right after "
+        "the loop) — re-run "
         "on /repo's working tree every time",
         "hand-written Model/Conv.lean (dimension/primary/modifier cast logic of find), Model/Overload.lean and "
         "Model/OverloadT.lean (find_function_type, the template half of find_overload_casts and the output-argument check "
@@ -330,15 +365,25 @@ SPEC = {
         "TypeId equality is structural equality of types (the type registry hash-conses layers)",
         "exactly matching = every passed argument has the type of its parameter, ignoring value category, const and "
         "trailing defaulted parameters; two such candidates (f(int)/f(out int), f(int)/f(int, int = 0), "
-        "template<T> f(T)/f(int)) are ambiguous; judged wherever no 1-vector is involved (int -> int1 is ranked exact)",
+        "template<T> f(T)/f(int)) are ambiguous; judged wherever no 1-vector is involved (int -> int1 is ranked exact); a "
+        "candidate that meets a 1-vector (outside the property's quantifier) takes no part in the oracle's domination "
+        "judgement either (int1 -> half1 is ranked Conversion/Expand by the code: notes/C16.md reading 14)",
         "FunctionIds of the candidates are pairwise distinct; an instantiated signature has as many parameters as the "
         "template (WF, proved for the modelled templates)",
         "which overload list reaches find_function_type (innermost scope that knows the name; all methods of the struct; all "
         "functions of the object; intrinsics + user functions of that name in the root scope) is fingerprinted "
-        "(resolve_shape_as_modelled) and exercised by the call-path streams, not modelled in Lean",
+        "(resolve_shape_as_modelled) and exercised by the call-path streams; modelled in Lean for one name in the root "
+        "scope + one namespace / two structs (Model/OverloadSeq.lean: scope chain and the gathering loop of "
+        "find_identifier_in_scope), the nested-namespace, object-method and struct-member routes are not",
         "template parameters appear in parameter types only as T, vector<T,n>, matrix<T,x,y>, T[n]; the compiler's own "
         "templates (Load<T>, Store(uint,T), DispatchMesh) mention their type parameter in a parameter or the return type "
         "(a constant given for it then fails the substitution, as the kind check does for user templates)",
+        "symbols of the same name: only the kinds find_identifier_in_scope's debug_assert allows next to a function (Type, "
+        "ConstantBuffer, Namespace, EnumScope) are modelled - a global, cbuffer member, enum value or constant of the "
+        "name refuses / is refused by a function of the name at its declaration (checked by the real compiler when the "
+        "declarations are compiled: such a unit is skipped); whether a call that became a constructor expression is "
+        "accepted is not modelled (a helper template whose body call is taken for a type answers `unsupported`); structs "
+        "declare no such symbols (method paths unchanged)",
         "calls interleaved with declarations: overloads of ONE name in at most two scopes (root + one namespace, or two "
         "structs); a call site is a function body of its own (a refused site ends a real compilation, so the verdicts "
         "of a unit are read one site at a time on top of the accepted earlier ones); a call in a template body is "
